@@ -297,7 +297,7 @@ def gen_cases(ctx, quick):
 
 
 def build(ctx):
-    binary, log = ctx.build_harness("c07_proj.cpp", extra=sp.header_flag())
+    binary, log = ctx.build_harness("c07_proj.cpp", name=sp.harness_name("c07_proj"), extra=sp.header_flag())
     if not binary:
         ctx.broken("harness-build", "harness c07_proj.cpp", "harness does not compile against /repo: " + log[-800:])
     return binary
